@@ -10,7 +10,7 @@ namespace HmcVerif
 namespace SourceLoc
 
 section
-variable {α : Type} [Add α] [Sub α] [Mul α] [Div α] [Neg α] [OfScientific α]
+variable {α : Type} [Add α] [Sub α] [Mul α] [Div α] [Neg α] [OfScientific α] [LT α] [DecidableLT α]
 variable {nc ne ns : Nat}
 
 /-- straight-line distance between an event and a station -/
@@ -39,13 +39,18 @@ def weight (obs : Option α) (sigma tcalc : α) : α :=
   | none => 0.0
   | some o => (tcalc - o) / (sigma * sigma)
 
+/-- direction cosine over the velocity, `(x_c − r_c) / (v·d)`. For an event that sits exactly on a station
+    (`d = 0`) the direction is undefined (`0/0`); the code sums with `nansum`, which drops that term —
+    so the gradient stays finite wherever the misfit is. -/
+def dirTerm (num v d : α) : α := if (0.0 : α) < d then num / (v * d) else 0.0
+
 /-- gradient with respect to spatial coordinate `c` of event `e` -/
 def gradCoord (sqrt : α → α) (sumC : (Fin nc → α) → α) (sumS : (Fin ns → α) → α)
     (rcv : Fin ns → Fin nc → α) (obs : Fin ne → Fin ns → Option α) (sigma : Fin ne → Fin ns → α)
     (src : Fin ne → Fin nc → α) (T : Fin ne → α) (v : α) (e : Fin ne) (c : Fin nc) : α :=
   sumS (fun s =>
     weight (obs e s) (sigma e s) (arrival sqrt sumC (src e) (rcv s) (T e) v)
-      * ((src e c - rcv s c) / (v * dist sqrt sumC (src e) (rcv s))))
+      * dirTerm (src e c - rcv s c) v (dist sqrt sumC (src e) (rcv s)))
 
 /-- gradient with respect to the origin time of event `e` -/
 def gradTime (sqrt : α → α) (sumC : (Fin nc → α) → α) (sumS : (Fin ns → α) → α)
